@@ -342,3 +342,21 @@ def origin(prog, f, op, depth=12):
     elif op["k"] == "const":
         res.add(("const", op.get("v", op.get("str", op.get("zst"))), ""))
     return res
+
+
+def free_node_key(prog):
+    """The crate-private function that retires a slot (Arena::free_node today): by name when present, otherwise the only non-public Arena method taking
+    (&mut Arena, NodeId) that NodeId::remove calls."""
+    default = "crate::arena::Arena<T>::free_node"
+    if default in prog.fns:
+        return default
+    idx = Index(prog)
+    cands = []
+    for k in idx.edges.get("crate::id::NodeId::remove", ()):
+        f = prog.fns.get(k)
+        if f is None or "mir" not in f or not k.startswith("crate::arena::Arena<T>::") or f.get("vis") == "pub":
+            continue
+        mir = f["mir"]
+        if mir["arg_count"] == 2 and prog.tys(mir["locals"][1]["ty"]).startswith("&mut crate::arena::Arena<") and prog.tys(mir["locals"][2]["ty"]) == "crate::id::NodeId":
+            cands.append(k)
+    return cands[0] if len(cands) == 1 else default
